@@ -315,6 +315,24 @@ def _probabilities(t, out=None, depth=0):
     return out
 
 
+def _has_or_argument(t, depth=0):
+    """A disjunction is a direct argument of a compound term in functional notation (findall(X, (a;b), L), call((a;b)))."""
+    from problog.logic import Or, And, Clause, Term
+    if depth > 60 or not isinstance(t, Term):
+        return False
+    functional = type(t) == Term and t.op_spec is None and not (t.functor == "." and t.arity == 2)
+    for a in (t.args or ()):
+        if isinstance(a, list):
+            if any(_has_or_argument(x, depth + 1) for x in a):
+                return True
+            continue
+        if functional and type(a) == Or:
+            return True
+        if _has_or_argument(a, depth + 1):
+            return True
+    return False
+
+
 def text_roundtrip(seed):
     """A clause written as text with explicit parentheses, parsed (t1), printed, parsed again (t2): t1 == t2.  This reaches
     the infix printer: only terms that come out of the parser carry operator priorities."""
@@ -338,16 +356,19 @@ def text_roundtrip(seed):
         out["nontrivial"] = True
         t1 = c1[0]
         s = str(t1)
+        # listed finding: a disjunction as argument of a compound term is printed without parentheses (the expected
+        # output of the repository test clause2_basic_tests pins `c_head_clause((d, e); f,1.0)`)
+        orarg = "disjunction-as-argument:" if _has_or_argument(t1) else ""
         try:
             c2 = list(PrologString(s + "."))
         except _Timeout:
             raise
         except Exception as e:      # noqa
-            out["violations"].append(("text-roundtrip:not-parsable:" + kind, "printed as %r, which does not parse: %s"
+            out["violations"].append(("text-roundtrip:" + orarg + "not-parsable:" + kind, "printed as %r, which does not parse: %s"
                                       % (s, classify_exception(e))))
             return out
         if len(c2) != 1 or not (c2[0] == t1) or type(c2[0]) != type(t1) or _probabilities(c2[0]) != _probabilities(t1):
-            out["violations"].append(("text-roundtrip:not-equal:" + kind, "printed as %r, which parses back as %r"
+            out["violations"].append(("text-roundtrip:" + orarg + "not-equal:" + kind, "printed as %r, which parses back as %r"
                                       % (s, "; ".join(str(c) for c in c2))))
             return out
         # Term.from_string, the other public way back from text to a term.  Worker processes run many cases one after
